@@ -547,14 +547,34 @@ def _main(args, seed, scratch):
         if f:
             known_hit[f["id"]] = known_hit.get(f["id"], 0) + agg["violation_counts"].get(k, 0)
             continue
-        hs_found = [int(it["hashseed"])] if str(it.get("hashseed") or "").isdigit() else None
-        todo.append((k, it, hs_found))
+        cands = sorted(by_class[k], key=lambda x: len(json.dumps(x["case"])))[:4]
+        todo.append((k, cands, None))
     # every class is minimised and replayed in interpreters of its own: side by side (a change that breaks a property
     # often shows under a dozen class names at once)
     from concurrent.futures import ThreadPoolExecutor
+    def _first_reproducible(cands):
+        # a violation that needs what EARLIER runs of its worker left behind in the process (a change under test that
+        # damages process-wide state) does not replay alone: the next candidates of the class are tried, and a class
+        # without any replayable candidate is never reported as a violation
+        err = None
+        for it in cands:
+            hs_found = [int(it["hashseed"])] if str(it.get("hashseed") or "").isdigit() else None
+            try:
+                return minimise_and_publish(check, it, seed, scratch, hs_found)
+            except HarnessError as e:
+                err = e
+        return err
+
     with ThreadPoolExecutor(max_workers=8) as tpe:
-        futs = [(k, tpe.submit(minimise_and_publish, check, it, seed, scratch, hs_found)) for k, it, hs_found in todo]
-        done = [(k, fu.result()) for k, fu in futs]
+        futs = [(k, tpe.submit(_first_reproducible, cands)) for k, cands, _ in todo]
+        done0 = [(k, fu.result()) for k, fu in futs]
+    unreplayable = [(k, r) for k, r in done0 if isinstance(r, HarnessError)]
+    done = [(k, r) for k, r in done0 if not isinstance(r, HarnessError)]
+    if unreplayable and not done:
+        raise unreplayable[0][1]
+    for k, e in unreplayable:
+        print("note: no candidate of class %s replays in a fresh interpreter (it depends on what earlier runs left in the "
+              "process); not reported, other classes are" % k)
     for k, (path, mini) in done:
         f = match_finding(findings, prop, mini["violation"])
         if f:
